@@ -5,9 +5,9 @@
    commits, the pending-free records and the free horizon "oldest pin + 1"; histories = arbitrary lists of
    begin_read / drop / commit (any fresh pages added, any pages of the latest version dropped) / abort.
    (2) Conc/Programs.v (C03): the interleaved step model, from which comes the fact that the id a reader
-   pins is <= the id of the root it reads, for every schedule.
-   Partial: non-durable commits and their early reclaim are NOT in model (1) -- for them the statement is
-   false in redb (finding F1, exhibited by model (2), see Props/C03.v); savepoint restore, the cache layer
+   pins is the id of the root it reads, for every schedule.
+   Partial: non-durable commits and their early reclaim are NOT in model (1) -- there the statement was
+   false in redb until begin_read was fixed (finding F1, see Props/C03.v and design.d/C02.md); savepoint restore, the cache layer
    and the B-tree read path are validated by the harness only. *)
 From Coq Require Import List NArith.
 From RV Require Import Conc.Versions Conc.VersionsP Conc.Programs Conc.ProgramsP Conc.InvP.
@@ -28,11 +28,11 @@ Theorem c02_reuse_never_hits_a_pinned_version : forall ops s v u p adds drops s'
   vstep (VCommit adds drops) s = Some s' -> ~ In p adds /\ In p (v_alloc s') /\ reach s' u = reach s u.
 Proof. exact reuse_never_hits_a_pinned_version. Qed.
 
-(* every interleaving: the pinned id is <= the id of the root the reader actually reads (so the version it
-   reads is one of the protected ones above), and what it reads is one fixed publication *)
-Theorem c02_reader_pin_le_root : forall sched progs r rs v p,
-  aget r (readers (final sched progs)) = Some rs -> r_root rs = Some (v, p) -> r_reg rs <= v.
-Proof. exact reader_id_le_root. Qed.
+(* every interleaving: the pinned id is the id of the root the reader actually reads (begin_read registers again
+   until they agree), so the version it reads is one of the protected ones above *)
+Theorem c02_reader_pin_is_root : forall sched progs r rs v p,
+  aget r (readers (final sched progs)) = Some rs -> r_root rs = Some (v, p) -> r_reg rs = v.
+Proof. exact reader_id_eq_root. Qed.
 
 Theorem c02_snapshot_is_one_publication : forall sched progs r rs x,
   let s := final sched progs in
